@@ -356,6 +356,40 @@ def run(facts, tier):
             g4.violate("list-drop", "dropping a lazy list is not iterative any more: a long evaluated list would be dropped recursively (stack overflow)", where=dj[0]["sp"])
     rules.append(g4.finish())
 
+    # ---------------- G4.6 sequenced streams can report exhaustion
+    g6 = Rule("G4.6", "what the evaluators append to a stream with `chain` (the right operand of `,`, continuations) has a concrete iterator type that can report exhaustion through its size hint: "
+              "no `core::iter::from_fn` source (its hint is always (0, None)), else the growth guard of G4.4 can never drop the finished frame and the trampoline keeps one frame per iteration", floor=2)
+    by_def = {}
+    for body in facts.mir("jaq_core"):
+        by_def.setdefault(body["def"], body)
+    def concrete(body, local, depth=0):
+        """type of a local, opaque `impl Iterator` results of first-party helpers replaced by the helper's concrete return type"""
+        ty = body["locals"][local]["ty"]
+        if "impl " not in ty or depth > 2:
+            return ty
+        for bb_ in body["bbs"]:
+            t_ = bb_["t"]
+            if t_["k"] == "Call" and (t_.get("d") or {}).get("l") == local and not (t_.get("d") or {}).get("pr"):
+                callee = by_def.get(t_.get("res") or t_.get("fn") or "")
+                if callee is not None:
+                    return concrete(callee, 0, depth + 1)
+        return ty
+    NEVER_EXHAUSTED = re.compile(r"core::iter::sources::from_fn::FromFn|core::iter::sources::repeat_with::RepeatWith|core::iter::sources::repeat::Repeat<")
+    n6 = 0
+    for body in facts.mir("jaq_core"):
+        if not re.match(r"^jaq_core::filter::", body["def"]) or body.get("test"):
+            continue
+        b = Body(body)
+        for i in b.find_calls(r"core::iter::traits::iterator::Iterator::chain$"):
+            al = b.arg_locals(i, 1)
+            tys = [concrete(body, l) for l in al] or [(b.bbs[i]["t"].get("argtys") or ["", ""])[1]]
+            bad = [ty for ty in tys if NEVER_EXHAUSTED.search(ty)]
+            n6 += 1
+            g6.examined(("chain", body["def"].split("::{closure")[0], n6), True, {"in": body["def"], "appended_type": tys[0][:120], "can_report_exhaustion": not bad})
+            if bad:
+                g6.violate(f"never-exhausted/{body['def'].split('::{closure')[0]}", f"`{body['def']}` appends an iterator of type `{bad[0][:100]}` to a stream: its size hint never becomes (0, Some(0)), so finished `l, r` frames stay on the evaluation stack (memory grows with every iteration of a tail-recursive filter)", where=b.bbs[i]["t"]["sp"])
+    rules.append(g6.finish())
+
     # ---------------- G4.5 calls drop the caller's bindings in every evaluator (shared with C02 T2.8)
     from c02 import rule_ctx_agreement
     rules.append(rule_ctx_agreement(facts, "G4.5").finish())
